@@ -50,8 +50,11 @@ theorem kidShape_deserializeChild (c : Bytes) (n : WN) (h : deserializeChild c =
       · have h72 : 72 ≤ c.length := by omega
         have s4 : slice c 40 (40 + 32) = .ok ((c.take 72).drop 40) := by unfold slice; simp; omega
         have s5 : sliceFrom c (40 + 32) = .ok (c.drop 72) := by unfold sliceFrom; simp; omega
-        simp only [l, if_false, s4, s5, Res.ok.injEq, Option.some.injEq] at h
-        subst h; exact .inr (.inr ⟨_, _, _, _, rfl⟩)
+        simp only [l, if_false, s4, s5] at h
+        by_cases hk : isNibbles (c.drop 72) = true
+        · simp only [hk, Bool.not_true, Bool.false_eq_true, if_false, Res.ok.injEq, Option.some.injEq] at h
+          subst h; exact .inr (.inr ⟨_, _, _, _, rfl⟩)
+        · simp [hk] at h
   · simp [h40] at h
 
 theorem kidShape_deserializeChildren (cs : List Bytes) (ns : List WN) (w : Nat)
@@ -130,6 +133,9 @@ theorem shape_deserializeNode (q : PBase) (n : WN) (hq : deserializeNode q = .ok
           | none => simp [hs] at hq
           | some sv =>
             simp only [hs] at hq
+            by_cases hk : isNibbles sv.key = true
+            case neg => simp [hk] at hq
+            simp only [hk, Bool.not_true, Bool.false_eq_true, if_false] at hq
             by_cases hl : sv.value.length ≠ hashWithWeightLength
             · simp [hl] at hq
             · simp only [hl, if_false] at hq
@@ -143,7 +149,7 @@ theorem shape_deserializeNode (q : PBase) (n : WN) (hq : deserializeNode q = .ok
                   cases h3 : uint64At rest with
                   | err e => simp [h3] at hq
                   | ok w' =>
-                    simp only [h3, Bool.false_eq_true, if_false, Res.ok.injEq] at hq
+                    simp only [h3, Res.ok.injEq] at hq
                     subst hq; exact .inr (.inr (.inr (.inl ⟨_, _, _, _, rfl⟩)))
 
 theorem shape_resolveHash {hasDb : Bool} {s : Store} {h : Bytes} {n : WN} (hr : resolveHash hasDb s h = .ok n) :
@@ -485,7 +491,10 @@ theorem inv_delete_aux (hI : NodeInv I) (hlen : ∀ x, (H x).length = 32) :
     cases hrep with
     | nil => intro he; simp [delete] at he
     | empty => intro he; simp [delete] at he
-    | value h vv vw d hcl => intro _; simp only [delete]; exact hI.nil
+    | value h vv vw d hcl =>
+      by_cases hk' : key = []
+      · subst hk'; intro _; simp only [delete, ne_eq, not_true_eq_false, if_false]; exact hI.nil
+      · intro he; simp [delete, hk'] at he
     | ref t hn0 hst =>
       have hres := resolve_stored H hlen s t hn0 hst hok.1 hok.2
       have hf' : need (PT.loaded H t) key ≤ fuel := by
@@ -1073,7 +1082,7 @@ theorem gbp_rep (hlen : ∀ x, (H x).length = 32) (s : Store) (t : PT) :
       obtain ⟨f, rfl⟩ : ∃ f, fuel = f + 1 := ⟨fuel - 1, by omega⟩
       have hpc : Proper cn := hp.2.2.2
       obtain ⟨k', v, ho, hrec⟩ := ih (calcHash H cn).1 b f (pre ++ k) (rep_calcHash hc hpc).1
-        ((proper_calcHash H cn).mpr hpc) ((upDirty_calcHash H cn).mpr hud.2) hw' hsz.2 hb1 hb' (by omega)
+        ((proper_calcHash H cn).mpr hpc) ((upDirty_calcHash H cn).mpr hud.2) hw' hsz.2.2 hb1 hb' (by omega)
       refine ⟨k ++ k', v, by simp [PT.owner, ho, Nat.not_lt.mpr hb'], ?_⟩
       rw [gbp_short_rep hlen s f b pre hc (fun hd => (hcl hd).1) hp hb', hrec]
       simp [PT.proofPairs]
